@@ -111,12 +111,13 @@ type Violation struct {
 }
 
 type World struct {
-	gateDelay int           // set by the gate hook right before it parks: scheduler steps the preemption lasts
-	wake      chan struct{} // a call has just parked (ends the scheduler's sleep)
-	gates     *gateState
-	mu        sync.Mutex
-	cfg       *Config
-	rng       *rand.Rand
+	gateDelay   int           // set by the gate hook right before it parks: scheduler steps the preemption lasts
+	gateWaiting bool          // some goroutine is still preempted at a gate (set by enabledList)
+	wake        chan struct{} // a call has just parked (ends the scheduler's sleep)
+	gates       *gateState
+	mu          sync.Mutex
+	cfg         *Config
+	rng         *rand.Rand
 
 	parked   map[string]*parked
 	frozen   []*parked // calls of dead incarnations, never released (until poison)
@@ -408,6 +409,7 @@ func (w *World) enabledList() []enabledItem {
 		}
 		out = append(out, it)
 	}
+	w.gateWaiting = waiting != nil
 	if len(out) == 0 && waiting != nil {
 		// nothing else can run: the preempted goroutine is scheduled again now (time does not
 		// pass while a goroutine is merely preempted)
@@ -586,6 +588,9 @@ func (w *World) choose(items []enabledItem) Choice {
 			pT = 0 // a goroutine waits at a gate: a preemption is short, time does not pass
 			break
 		}
+	}
+	if w.gateWaiting {
+		pT = 0
 	}
 	if len(overdue) == 0 && w.rng.IntN(100) < pT {
 		// small quanta only while calls are parked (keeps the world responsive)
